@@ -20,10 +20,17 @@ package prefork
 //@   on call value:startWait:
 //@     requires[waiter-for-the-child-just-started] waited == started - 1
 //@     effect waited = waited + 1
+//   A child is entered into childProcs (the set shutdownChildren signals and kills) before any user hook can make
+//   prefork return: a started child that is not in the set is never told to stop, and teardown waits for it forever.
+//@   ghost tracked int = 0
+//@   on index childProcs(k):
+//@     effect tracked = tracked + 1
 //@   on call field:OnChildSpawn -> e:
 //@     requires[waiter-before-hook] waited == started
+//@     requires[tracked-before-hook] tracked == started
 //@   on call field:OnMasterReady -> e:
 //@     requires[all-children-have-waiters] waited == started
+//@     requires[all-children-tracked] tracked == started
 //@   on call Prefork.shutdownChildren:
 //@     nohavoc
 //@     effect shut = shut + 1
@@ -39,11 +46,14 @@ package prefork
 //@   end
 //@   loop 2:
 //@     invariant[each-child-waited] waited == started && shut == 0 && !lastFailed
+//@     invariant[each-child-tracked] tracked == started
 //@     atend[failed-start-ends-prefork] !lastFailed
 //@   loop 3:
 //@     invariant[each-child-waited] waited == started && shut == 0 && !lastFailed
+//@     invariant[each-child-tracked] tracked == started
 //@     atend[failed-restart-ends-supervision] !lastFailed
 //@   ensures[every-child-has-a-waiter] waited == started
+//@   ensures[every-child-is-tracked-for-teardown] tracked == started
 //@   ensures[teardown-exactly-once] started > 0 ==> shut == 1
 //@   ensures[at-most-one-teardown] shut <= 1
 //@   ensures[spawn-failure-is-reported] lastFailed ==> err != nil
